@@ -2,7 +2,7 @@
    every run, is proved to leave exactly Model.Phospho's site list in self.phosphosites, for EVERY sequence, current site
    list and request (a list of ints, or one int), and never to raise. *)
 From Coq Require Import List String Ascii ZArith NArith Bool Lia.
-From LC Require Import Core.Residue Core.MiniPy Model.Phospho Gen.GMiniPy.
+From LC Require Import Core.Residue Core.MiniPy Model.Phospho Proofs.Phospho Gen.GMiniPy.
 Import ListNotations.
 
 Local Notation exec := (MiniPy.exec noprim 0).
@@ -157,3 +157,174 @@ Proof.
   exists (VInt z), sv', iv', rv'. reflexivity.
 Qed.
 Print Assumptions setPhosPhoSites_list_tie.
+
+(* ---------- get_phosphosites ---------- *)
+Definition gp_env (sites : list nat) (acc iv : value) : env :=
+  [("self"%string, VNone); ("self.phosphosites"%string, sites_val sites); ("newSites"%string, acc); ("i"%string, iv)].
+
+Ltac mp2 := cbn [MiniPy.exec MiniPy.eval lookup set String.eqb Ascii.eqb Bool.eqb truthy v_in v_not cmp_int bad2 is_bad as_Q
+                gp_env existsb veqb orb list_ascii_of_string].
+
+Theorem get_phosphosites_tie sites :
+  exec g_get_phosphosites (gp_env sites VNone VNone) = ORet (VList (map VInt (get_sites {| pseq := []; psites := sites |}))).
+Proof.
+  assert (Hs : split_at_for g_get_phosphosites =
+                Some ([SAssign "newSites" (EListLit [])], ("i"%string, EVar "self.phosphosites", SAppend "newSites" (EAdd (EVar "i") (EConst (VInt 1)))),
+                      SReturn (EVar "newSites"))) by reflexivity.
+  rewrite (exec_split _ _ _ _ _ _ _ Hs).
+  change (exec_list [SAssign "newSites" (EListLit [])] (gp_env sites VNone VNone)) with (ONorm (gp_env sites (VList []) VNone)).
+  cbv beta iota. rewrite exec_for.
+  change (eval (EVar "self.phosphosites") (gp_env sites (VList []) VNone)) with (sites_val sites). cbn [elements sites_val].
+  assert (H : forall l acc iv, exists iv',
+            run_loop "i" (SAppend "newSites" (EAdd (EVar "i") (EConst (VInt 1)))) (map (fun i => VInt (Z.of_nat i)) l) (gp_env sites (VList acc) iv) =
+            ONorm (gp_env sites (VList (acc ++ map (fun i => VInt (Z.of_nat (S i))) l)) iv')).
+  { induction l as [|i l IH]; intros acc iv; cbn [map MiniPy.run_loop].
+    - exists iv. now rewrite app_nil_r.
+    - mp2. destruct (IH (acc ++ [VInt (Z.of_nat i + 1)]) (VInt (Z.of_nat i))) as [iv' E]. exists iv'. unfold gp_env in E. rewrite E.
+      rewrite <- app_assoc. cbn [app]. rewrite Nat2Z.inj_succ, Z.add_1_r. reflexivity. }
+  destruct (H sites [] VNone) as [iv' E]. rewrite E. mp2. unfold get_sites. cbn [psites app]. rewrite map_map. reflexivity.
+Qed.
+
+(* ---------- clear_phosphosites ---------- *)
+Theorem clear_phosphosites_tie sites :
+  exec g_clear_phosphosites [("self"%string, VNone); ("self.phosphosites"%string, sites_val sites)] =
+  ONorm [("self"%string, VNone); ("self.phosphosites"%string, sites_val [])].
+Proof. reflexivity. Qed.
+
+(* ---------- get_STY_residues ---------- *)
+Definition sty_env (s : list aa) (acc : list value) (idx : Z) (iv : value) : env :=
+  [("self"%string, VNone); ("self.seq"%string, VStr (map aa_char s)); ("sites"%string, VList acc); ("idx"%string, VInt idx); ("i"%string, iv)].
+
+Lemma sty_in2 a : existsb (veqb (VStr [aa_char a])) [VStr ["Y"%char]; VStr ["S"%char]; VStr ["T"%char]] = sty a.
+Proof. destruct a; reflexivity. Qed.
+
+Lemma sty_in' a : ascii_list_eqb [aa_char a] ["Y"%char] || (ascii_list_eqb [aa_char a] ["S"%char] || (ascii_list_eqb [aa_char a] ["T"%char] || false)) = sty a.
+Proof. destruct a; reflexivity. Qed.
+
+Definition sty_from (k : nat) (s : list aa) : list Z :=
+  map (fun p => Z.of_nat (S (fst p))) (filter (fun p => sty (snd p)) (combine (seq k (List.length s)) s)).
+
+Definition sty_pre : list stmt := Eval vm_compute in match split_at_for g_get_STY_residues with Some (p, _, _) => p | None => [] end.
+Definition sty_body : stmt := Eval vm_compute in match split_at_for g_get_STY_residues with Some (_, (_, _, b), _) => b | None => SSkip end.
+Definition sty_rest : stmt := Eval vm_compute in match split_at_for g_get_STY_residues with Some (_, _, r) => r | None => SRaise end.
+Lemma sty_split_eq : split_at_for g_get_STY_residues = Some (sty_pre, ("i"%string, EVar "self.seq", sty_body), sty_rest).
+Proof. vm_compute. reflexivity. Qed.
+
+Theorem get_STY_residues_tie s :
+  exec g_get_STY_residues [("self"%string, VNone); ("self.seq"%string, VStr (map aa_char s)); ("sites"%string, VNone); ("idx"%string, VNone); ("i"%string, VNone)] =
+  ORet (VList (map VInt (sty_positions s))).
+Proof.
+  rewrite (exec_split _ _ _ _ _ _ _ sty_split_eq).
+  change (exec_list sty_pre [("self"%string, VNone); ("self.seq"%string, VStr (map aa_char s)); ("sites"%string, VNone); ("idx"%string, VNone); ("i"%string, VNone)])
+    with (ONorm (sty_env s [] 1 VNone)).
+  cbv beta iota. rewrite exec_for.
+  change (eval (EVar "self.seq") (sty_env s [] 1 VNone)) with (VStr (map aa_char s)). cbn [elements]. rewrite map_map.
+  assert (H : forall l k acc iv, exists iv',
+            run_loop "i" sty_body (map (fun a => VStr [aa_char a]) l) (sty_env s acc (Z.of_nat (S k)) iv) =
+            ONorm (sty_env s (acc ++ map VInt (sty_from k l)) (Z.of_nat (S (k + List.length l))) iv')).
+  { induction l as [|a l IH]; intros k acc iv; cbn [map MiniPy.run_loop].
+    - exists iv. unfold sty_from. cbn. rewrite app_nil_r, Nat.add_0_r. reflexivity.
+    - unfold sty_body, sty_env. mp2.
+      rewrite sty_in'.
+      assert (Hk : Z.of_nat (S k) + 1 = Z.of_nat (S (S k))) by lia.
+      destruct (sty a) eqn:Ea; mp2; rewrite Hk.
+      + destruct (IH (S k) (acc ++ [VInt (Z.of_nat (S k))]) (VStr [aa_char a])) as [iv' E]. exists iv'. unfold sty_env, sty_body in E. rewrite E.
+        unfold sty_from. cbn [List.length seq combine filter snd fst map]. rewrite Ea. cbn [map fst]. rewrite <- app_assoc. cbn [app].
+        replace (S k + Datatypes.length l)%nat with (k + S (Datatypes.length l))%nat by lia. reflexivity.
+      + destruct (IH (S k) acc (VStr [aa_char a])) as [iv' E]. exists iv'. unfold sty_env, sty_body in E. rewrite E.
+        unfold sty_from. cbn [List.length seq combine filter snd fst map]. rewrite Ea.
+        replace (S k + Datatypes.length l)%nat with (k + S (Datatypes.length l))%nat by lia. reflexivity. }
+  destruct (H s 0%nat [] VNone) as [iv' E]. change (Z.of_nat 1) with 1 in E. rewrite E. unfold sty_rest, sty_env. mp2. reflexivity.
+Qed.
+
+(* ---------- get_phosphosequence ---------- *)
+Definition pq_env (s : list aa) (sites : list nat) (acc : value) (idx : value) (iv : value) : env :=
+  [("self"%string, VNone); ("self.seq"%string, VStr (map aa_char s)); ("self.phosphosites"%string, sites_val sites);
+   ("pseq"%string, acc); ("idx"%string, idx); ("i"%string, iv)].
+Definition pq_pre : list stmt := Eval vm_compute in match split_at_for g_get_phosphosequence with Some (p, _, _) => p | None => [] end.
+Definition pq_body : stmt := Eval vm_compute in match split_at_for g_get_phosphosequence with Some (_, (_, _, b), _) => b | None => SSkip end.
+Definition pq_rest : stmt := Eval vm_compute in match split_at_for g_get_phosphosequence with Some (_, _, r) => r | None => SRaise end.
+Lemma pq_split_eq : split_at_for g_get_phosphosequence = Some (pq_pre, ("i"%string, EVar "self.seq", pq_body), pq_rest).
+Proof. vm_compute. reflexivity. Qed.
+
+Ltac mq := cbn [MiniPy.exec MiniPy.eval lookup set String.eqb Ascii.eqb Bool.eqb truthy v_not cmp_int bad2 is_bad as_Q
+                pq_env orb negb list_ascii_of_string].
+
+Lemma in_sites2 k sites : existsb (veqb (VInt (Z.of_nat k))) (map (fun i => VInt (Z.of_nat i)) sites) = memn k sites.
+Proof.
+  unfold memn. induction sites as [|i sites IH]; [reflexivity|]. cbn [map existsb]. rewrite IH. f_equal.
+  change (veqb (VInt (Z.of_nat k)) (VInt (Z.of_nat i))) with (Z.of_nat k =? Z.of_nat i).
+  destruct (Nat.eqb_spec k i) as [->|Hne]; [apply Z.eqb_refl | apply Z.eqb_neq; lia].
+Qed.
+
+Lemma index_mid pre a l : index_val (map aa_char (pre ++ a :: l)) (Z.of_nat (List.length pre)) = Some (aa_char a).
+Proof.
+  unfold index_val. rewrite map_length, app_length. cbn [List.length].
+  replace (Z.of_nat (Datatypes.length pre) <? 0) with false by (symmetry; apply Z.ltb_ge; lia).
+  replace ((Z.of_nat (Datatypes.length pre) <? 0) || (Z.of_nat (Datatypes.length pre + S (Datatypes.length l)) <=? Z.of_nat (Datatypes.length pre))) with false
+    by (symmetry; apply orb_false_iff; split; [apply Z.ltb_ge | apply Z.leb_gt]; lia).
+  rewrite Nat2Z.id, nth_error_map, nth_error_app2 by lia. rewrite Nat.sub_diag. reflexivity.
+Qed.
+
+Definition subst_from (k : nat) (sites : list nat) (l : list aa) : list aa :=
+  map (fun p => if memn (fst p) sites then Glu else snd p) (combine (seq k (List.length l)) l).
+
+(* every stored site is an S/T/Y position (the invariant set_phosphosites maintains: Proofs/Phospho) *)
+Definition sites_sty (s : list aa) (sites : list nat) : Prop :=
+  forall i, memn i sites = true -> exists a, nth_error s i = Some a /\ sty a = true.
+
+Theorem get_phosphosequence_tie s sites : sites_sty s sites ->
+  exec g_get_phosphosequence (pq_env s sites VNone VNone VNone) =
+  ORet (VStr (map aa_char (phosphoseq {| pseq := s; psites := sites |}))).
+Proof.
+  intros Hinv. rewrite (exec_split _ _ _ _ _ _ _ pq_split_eq).
+  assert (Hpre : exec_list pq_pre (pq_env s sites VNone VNone VNone) = ONorm (pq_env s sites (VStr []) (VInt 0) VNone)).
+  { unfold pq_pre. cbn [MiniPy.exec_list]. mq. unfold sites_val. cbn [MiniPy.eval lookup pq_env String.eqb Ascii.eqb Bool.eqb].
+    destruct (veqb _ _); reflexivity. }
+  rewrite Hpre. cbv beta iota. rewrite exec_for.
+  change (eval (EVar "self.seq") (pq_env s sites (VStr []) (VInt 0) VNone)) with (VStr (map aa_char s)). cbn [elements]. rewrite map_map.
+  assert (H : forall l pre acc iv, s = pre ++ l -> exists iv',
+            run_loop "i" pq_body (map (fun a => VStr [aa_char a]) l) (pq_env s sites (VStr acc) (VInt (Z.of_nat (List.length pre))) iv) =
+            ONorm (pq_env s sites (VStr (acc ++ map aa_char (subst_from (List.length pre) sites l))) (VInt (Z.of_nat (List.length pre + List.length l))) iv')).
+  { induction l as [|a l IH]; intros pre acc iv Hs; cbn [map MiniPy.run_loop].
+    - exists iv. unfold subst_from. cbn. rewrite app_nil_r, Nat.add_0_r. reflexivity.
+    - unfold pq_body. mq. unfold sites_val.
+      change (v_in (VInt (Z.of_nat (Datatypes.length pre))) (VList (map (fun i : nat => VInt (Z.of_nat i)) sites)))
+        with (VBool (existsb (veqb (VInt (Z.of_nat (Datatypes.length pre)))) (map (fun i : nat => VInt (Z.of_nat i)) sites))).
+      rewrite in_sites2.
+      assert (Hk : Z.of_nat (Datatypes.length pre) + 1 = Z.of_nat (Datatypes.length (pre ++ [a]))) by (rewrite app_length; cbn [List.length]; lia).
+      assert (Hs' : s = (pre ++ [a]) ++ l) by (rewrite <- app_assoc; exact Hs).
+      destruct (memn (Datatypes.length pre) sites) eqn:Em; mq.
+      + destruct (Hinv _ Em) as [a' [Hn Hsty]]. rewrite Hs, nth_error_app2, Nat.sub_diag in Hn by lia. cbn [nth_error] in Hn. injection Hn as <-.
+        change (v_in (VStr [aa_char a]) (VList [VStr ["S"%char]; VStr ["Y"%char]; VStr ["T"%char]]))
+          with (VBool (existsb (veqb (VStr [aa_char a])) [VStr ["S"%char]; VStr ["Y"%char]; VStr ["T"%char]])).
+        replace (existsb (veqb (VStr [aa_char a])) [VStr ["S"%char]; VStr ["Y"%char]; VStr ["T"%char]]) with true
+          by (destruct a; try discriminate Hsty; reflexivity).
+        mq. rewrite Hk. destruct (IH (pre ++ [a]) (acc ++ ["E"%char]) (VStr [aa_char a]) Hs') as [iv' E]. exists iv'.
+        unfold pq_env, pq_body, sites_val in E. rewrite E. unfold subst_from. cbn [List.length seq combine map fst snd]. rewrite Em.
+        rewrite <- app_assoc. cbn [app aa_char]. rewrite !app_length. cbn [List.length].
+        replace (Datatypes.length pre + 1)%nat with (S (Datatypes.length pre)) by lia.
+        replace (S (Datatypes.length pre) + Datatypes.length l)%nat with (Datatypes.length pre + S (Datatypes.length l))%nat by lia. reflexivity.
+      + replace (index_val (map aa_char s) (Z.of_nat (Datatypes.length pre))) with (Some (aa_char a))
+          by (rewrite Hs; symmetry; apply index_mid).
+        mq. rewrite Hk.
+        destruct (IH (pre ++ [a]) (acc ++ [aa_char a]) (VStr [aa_char a]) Hs') as [iv' E]. exists iv'.
+        unfold pq_env, pq_body, sites_val in E. rewrite E. unfold subst_from. cbn [List.length seq combine map fst snd]. rewrite Em.
+        rewrite <- app_assoc. cbn [app]. rewrite !app_length. cbn [List.length].
+        replace (Datatypes.length pre + 1)%nat with (S (Datatypes.length pre)) by lia.
+        replace (S (Datatypes.length pre) + Datatypes.length l)%nat with (Datatypes.length pre + S (Datatypes.length l))%nat by lia. reflexivity. }
+  destruct (H s [] [] VNone eq_refl) as [iv' E]. cbn [List.length] in E. change (Z.of_nat 0) with 0 in E. rewrite E.
+  unfold pq_rest, pq_env. mq. unfold phosphoseq, subst_at, subst_from. cbn [pseq psites app]. reflexivity.
+Qed.
+
+(* ... for every state reachable by set / clear calls the invariant holds (Proofs/Phospho.sites_in_range_STY) *)
+Corollary get_phosphosequence_reachable s ops :
+  let o := prun ops {| pseq := s; psites := [] |} in
+  exec g_get_phosphosequence (pq_env s (psites o) VNone VNone VNone) = ORet (VStr (map aa_char (phosphoseq o))).
+Proof.
+  cbn zeta. pose proof (Proofs.Phospho.seq_unchanged ops {| pseq := s; psites := [] |}) as Hseq. cbn [pseq] in Hseq.
+  rewrite get_phosphosequence_tie.
+  - destruct (prun ops {| pseq := s; psites := [] |}) as [q p]. cbn [pseq psites] in *. subst q. reflexivity.
+  - intros i Hi. apply Proofs.Phospho.memn_In in Hi. apply (Proofs.Phospho.sites_in_range_STY s ops i) in Hi. tauto.
+Qed.
+Print Assumptions get_phosphosequence_reachable.
